@@ -1,6 +1,6 @@
 (* C01 - property theorems (statements only; the proofs live in Acme.C01.ProofsXxx / Acme.C07.ProofsXxx). *)
 From Coq Require Import ZArith List Sorted.
-From Acme.C01 Require Import Layout State Model ProofsLayout ProofsInv Refuted ProofsT1 ProofsSpec ProofsFrame Examples.
+From Acme.C01 Require Import Layout State Model ProofsLayout ProofsInv Refuted ProofsT1 ProofsSpec ProofsFrame ProofsAccept Examples.
 From Acme.C07 Require Import Proofs ProofsReg ProofsFinal.
 Open Scope Z_scope.
 
@@ -119,6 +119,49 @@ Theorem grow_accepted_iff_fits : forall s m x old n, InvA s -> InvM s -> InvR s 
   (is_ok (snd (step_set_type s x n)) <-> n - old <= free_behind s m x).
 Proof. exact set_type_accepted_iff_inv. Qed.
 Print Assumptions grow_accepted_iff_fits.
+
+(* T2 for the operations that change the size of a signal, wherever it is (top level of a message, or in
+   one or several groups of a multiplexer): accepted exactly when the change fits,
+     change_fits s (rel s) x a  :=  a <= 0  \/  every layout holding x has >= a free bits behind x
+   (free_in: the gaps between the followers of x plus the trailing space of that layout). *)
+Theorem set_type_accepted_iff_fits : forall s x old n, InvA s -> InvM s -> InvR s ->
+  kind s x = KStd old -> 1 <= n -> single_moved s (rel s) x (n - old) ->
+  (is_ok (snd (step_set_type s x n)) <-> change_fits s (rel s) x (n - old)).
+Proof. exact set_type_accepted_iff_f. Qed.
+Print Assumptions set_type_accepted_iff_fits.
+
+Theorem set_enum_accepted_iff_fits : forall s x e old, InvA s -> InvM s -> InvR s ->
+  kind s x = KEnum old -> single_moved s (rel s) x (esize s e - sz s x) ->
+  (is_ok (snd (step_set_enum s x e)) <-> change_fits s (rel s) x (esize s e - sz s x)).
+Proof. exact set_enum_accepted_iff_f. Qed.
+Print Assumptions set_enum_accepted_iff_fits.
+
+(* enum edits: AddValue / UpdateIndex are accepted exactly when the index is unused and, if it raises the
+   size of the enum, EVERY referencing signal can grow by that much (each one alone, in the state before
+   the edit: with the hypothesis that no layout holds two of them the growths do not interfere) *)
+Theorem add_value_accepted_iff_fits : forall s e idx, InvA s -> InvM s -> InvR s -> ok_op_f s (OAddValue e idx) ->
+  (is_ok (snd (step_add_value s e idx)) <->
+   ~ In idx (eidx s e) /\ (emax s e < idx -> enum_change_fits s e (esize_of (emin s e) idx - esize s e))).
+Proof. exact add_value_accepted_iff_f. Qed.
+Print Assumptions add_value_accepted_iff_fits.
+
+Theorem update_index_accepted_iff_fits : forall s v idx, InvA s -> InvM s -> InvR s -> ok_op_f s (OUpdateIndex v idx) ->
+  (is_ok (snd (step_update_index s v idx)) <->
+   vidx s v = idx \/ vpar s v = None
+   \/ exists e, vpar s v = Some e /\ ~ In idx (eidx s e)
+                /\ (emax s e < idx -> enum_change_fits s e (esize_of (emin s e) idx - esize s e))).
+Proof. exact update_index_accepted_iff_f. Qed.
+Print Assumptions update_index_accepted_iff_fits.
+
+(* RemoveValue is accepted exactly for a value of the enum; RemoveAllValues always (SetMinSize has no
+   result: finding D03) *)
+Theorem remove_value_accepted_iff : forall s e v, is_ok (snd (step_remove_value s e v)) <-> In v (evals s e).
+Proof. exact ProofsAccept.remove_value_accepted_iff. Qed.
+Print Assumptions remove_value_accepted_iff.
+
+Theorem remove_all_values_accepted : forall s e, is_ok (snd (step_remove_all_values s e)).
+Proof. exact ProofsAccept.remove_all_values_accepted. Qed.
+Print Assumptions remove_all_values_accepted.
 
 (* T3. Shifts return the distance moved, move the named signal to the declarative clamp, move
    nothing else, and report 0 when nothing can move. *)
